@@ -605,6 +605,13 @@ func (rw *rewriter) callExpr(x *ast.CallExpr) (string, bool) {
 			return "", false
 		}
 		return fmt.Sprintf("_simrt.%s(%d, %s)", fnName, rw.site(x, strings.ToLower(fnName)), p), true
+	case namedIs(rt, "sync", "WaitGroup") && (m == "Add" || m == "Done"):
+		p, _, ok := rw.recvOperand(selx)
+		if !ok {
+			rw.unsupported(x, "wg.Add/Done")
+			return "", false
+		}
+		return fmt.Sprintf("_simrt.YA(%d, %s).%s(%s)", rw.site(x, "wg"+strings.ToLower(m)), p, m, rw.args(x)), true
 	case namedIs(rt, "sync", "WaitGroup") && m == "Wait":
 		p, _, ok := rw.recvOperand(selx)
 		if !ok {
